@@ -17,6 +17,8 @@ import (
 	"sync"
 	"sync/atomic"
 	"time"
+
+	"github.com/pancsta/asyncmachine-go/internal/verifhook"
 )
 
 var _ Api = &Machine{}
@@ -389,6 +391,7 @@ func (m *Machine) Dispose() {
 	// doDispose in a goroutine to avoid a deadlock when called from within a
 	// handler
 	go func() {
+		verifhook.Point("dispose.forked")
 		if m.disposing.Load() {
 			m.log(LogDecisions, "[Dispose] already disposed")
 			// fmt.Println("[Dispose] already disposed " + m.Id())
@@ -422,6 +425,7 @@ func (m *Machine) doDispose(force bool) {
 		// already disposing
 		return
 	}
+	verifhook.Point("dispose.flagged")
 	if !force {
 		whenIdle := m.WhenQueueEnds()
 		select {
@@ -430,6 +434,7 @@ func (m *Machine) doDispose(force bool) {
 		case <-whenIdle:
 		}
 	}
+	verifhook.Point("dispose.drained")
 	if !m.disposed.CompareAndSwap(false, true) {
 		// already disposed
 		return
@@ -455,6 +460,7 @@ func (m *Machine) doDispose(force bool) {
 		defer m.queueMx.Unlock()
 	}
 
+	verifhook.Point("dispose.locked")
 	m.log(LogEverything, "[end] doDispose")
 	if m.Err() == nil && m.ctx.Err() != nil {
 		err := m.ctx.Err()
@@ -478,6 +484,7 @@ func (m *Machine) doDispose(force bool) {
 
 	close(m.errInternal)
 	m.subs.dispose()
+	verifhook.Point("dispose.subs-closed")
 	for _, mut := range m.queue {
 		if !mut.IsCheck {
 			continue
@@ -501,6 +508,7 @@ func (m *Machine) doDispose(force bool) {
 		m.queueProcessing.Store(false)
 	}
 
+	verifhook.Point("dispose.before-handlers")
 	// run doDispose handlers
 	// TODO timeouts?
 	for _, fn := range m.disposeHandlers {
@@ -678,6 +686,7 @@ func (m *Machine) WhenQueueEnds() <-chan struct{} {
 		return m.subs.Closed
 	}
 
+	verifhook.Point("wqe.checked")
 	// locks
 	m.queueMx.Lock()
 	defer m.queueMx.Unlock()
@@ -1352,6 +1361,7 @@ func (m *Machine) queueMutation(
 	mut.QueueTickNow = m.queueTick
 	// fmt.Printf("mut.QueueTickNow %d\n", mut.QueueTickNow)
 	m.queueMx.Unlock()
+	verifhook.Point("qm.appended")
 
 	// tracers
 	m.log(LogOps, "[queue:%s] %s%s", mutType, j(statesParsed),
@@ -2033,6 +2043,7 @@ func (m *Machine) processQueue() Result {
 
 	// try to acquire the lock TODO safer locking for handler deadlines?
 	if !m.queueProcessing.CompareAndSwap(false, true) {
+		verifhook.Point("pq.cas-lost")
 
 		m.queueMx.Lock()
 		defer m.queueMx.Unlock()
@@ -2108,6 +2119,7 @@ func (m *Machine) processQueue() Result {
 				closeSafe(args.CheckDone)
 			}
 		} else if t.IsAccepted.Load() && !t.Mutation.IsCheck {
+			verifhook.Point("pq.before-subs")
 			// TODO optimize process only when ticks change (incl queue tick)
 			// TODO optimize: check sub ctxs also on canceled txs
 			m.processSubscriptions(t)
@@ -2116,10 +2128,12 @@ func (m *Machine) processQueue() Result {
 		t.CleanCache()
 	}
 
+	verifhook.Point("pq.loop-exit")
 	// release the locks
 	m.t.Store(nil)
 	m.queueProcessing.Store(false)
 	m.queueRunning.Store(false)
+	verifhook.Point("pq.released")
 
 	// tracers
 	m.tracersMx.RLock()
